@@ -33,7 +33,8 @@ def gen(rng, count, tier):
             elif r < 0.4 and sm != 'threading':
                 j['expect'] = 'timeout'
                 j['timeout'] = 0.4
-                if rng.random() < 0.4:
+                if rng.random() < 0.4 and not any(x.get('ecb_sleep') for x in jobs):
+                    # (one per batch: callbacks run in the timeout handler's thread, so a slow one delays the next check)
                     # the task would finish on its own shortly after the deadline, and the error callback is slow: the interrupted
                     # task must not deliver a second result in the meantime
                     beh.append({'at': key, 'do': 'sleep', 's': 1.0})
